@@ -22,7 +22,7 @@ from ..model import AnalysisError, ClassInfo
 from ..pitlib import (analyse_masker, frozen_masker_classes, masker_classes, pit_layer_classes,
                       registered_buffers, storage_kinds)
 from ..sym import NONE, mentions, show, subterms
-from ..util import (SELF, arg, callee, guards_of, is_call, method_call, paths, returning,
+from ..util import (SELF, arg, callee, guards_of, path_guards, is_call, method_call, paths, returning,
                     short, where)
 from .c01 import time_maskers
 
@@ -272,7 +272,7 @@ def r08d(ctx):
         for e, c, extra in sites:
             if repo.find_getter(repo.classes[c], 'theta') is not None:
                 is_frozen = repo.classes[c] in frozen
-                conds = [(a, v) for a, v in guards_of(p, e) + extra
+                conds = [(a, v) for a, v in path_guards(p, e) + extra
                          if mentions(a, lambda x: x[0] == 'global' and
                                      x[1].endswith(('get_graph_inputs', 'get_graph_outputs')))
                          or mentions(a, lambda x: x == ('const', 'output_connected'))]
